@@ -37,6 +37,8 @@ def _p(i=0):
         pm.port(required=False, valid_type='str', validator='short'),
         pm.port(required=True, valid_type=None, default=['plain', 1]),
         pm.port(required=False, valid_type='num', validator='nonneg', default=['callable', 2]),
+        pm.port(required=False, valid_type=None, default=['plain', ['base']]),
+        pm.port(required=False, valid_type='dict', default=['plain', {'k': [1]}]),
     ]
     port = copy.deepcopy(shapes[i % len(shapes)])
     port['help'] = 'help %d' % i if i % 2 else None
@@ -46,8 +48,8 @@ def _p(i=0):
 SOURCE = pm.ns(
     {
         'a': _p(0),
-        'ab': pm.ns({'x': _p(1), 'y': _p(2), 'xy': pm.ns({'z': _p(3)}, required=False, dynamic=True)}, required=False, valid_type='int', validator='small'),
-        'abc': pm.ns({'x': _p(2), 'xx': _p(0)}, required=True, dynamic=False, populate_defaults=False),
+        'ab': pm.ns({'x': _p(1), 'y': _p(5), 'xy': pm.ns({'z': _p(3)}, required=False, dynamic=True)}, required=False, valid_type='int', validator='small'),
+        'abc': pm.ns({'x': _p(4), 'xx': _p(0)}, required=True, dynamic=False, populate_defaults=False),
         'b': _p(3),
     },
     required=False,
@@ -86,6 +88,15 @@ def enumerate_cases(tier, scope):
                                     'options': options,
                                     'via': via,
                                 }
+    # spec classes with another namespace separator
+    for sep in ('__', '/'):
+        for size in (1, 2):
+            for rules in itertools.combinations(ALL_PATHS[:10], size):
+                if not _no_ancestors(rules) or not any('.' in r for r in rules):
+                    continue
+                for mode in ('include', 'exclude'):
+                    for namespace, via in ((None, 'inputs'), ('t.u', 'outputs'), ('t', 'absorb')):
+                        yield {'source': SOURCE, 'dest': dests[1], 'mode': mode, 'rules': list(rules), 'namespace': namespace, 'options': {}, 'via': via, 'sep': sep}
     yield {'source': SOURCE, 'dest': dests[0], 'mode': 'both', 'rules': ['a'], 'namespace': None, 'options': {}, 'via': 'inputs'}
     yield {'source': SOURCE, 'dest': dests[0], 'mode': 'both', 'rules': ['a'], 'namespace': 't', 'options': {}, 'via': 'absorb'}
 
@@ -98,7 +109,7 @@ def _tree(draw, depth, counter):
             ports[name] = draw(_tree(depth - 1, counter))
         else:
             counter[0] += 1
-            ports[name] = _p(draw(st.integers(0, 7)))
+            ports[name] = _p(draw(st.integers(0, 11)))
     tree = pm.ns(
         ports,
         required=draw(st.booleans()),
@@ -134,7 +145,7 @@ def _cases(draw, tier):
         rules = kept
     dest_ports = {}
     for name in draw(st.lists(st.sampled_from(['keep', 'k2', 'a', 'ab', 't']), max_size=3, unique=True)):
-        dest_ports[name] = pm.ns({'own': _p(1)}) if name == 't' and draw(st.booleans()) else _p(draw(st.integers(0, 7)))
+        dest_ports[name] = pm.ns({'own': _p(1)}) if name == 't' and draw(st.booleans()) else _p(draw(st.integers(0, 11)))
     dest = pm.ns(dest_ports, required=draw(st.booleans()), dynamic=draw(st.booleans()))
     options = {}
     for key, values in (('required', [True, False]), ('dynamic', [True, False]), ('help', ['o', None]), ('populate_defaults', [True, False]), ('valid_type', [None, 'int']), ('bogus', [1])):
@@ -148,6 +159,7 @@ def _cases(draw, tier):
         'namespace': draw(st.sampled_from([None, None, 't', 't.u', 'keep'])),
         'options': options,
         'via': draw(st.sampled_from(['inputs', 'inputs', 'outputs', 'absorb'])),
+        'sep': draw(st.sampled_from([None, None, None, '__', '/'])),
     }
 
 
@@ -168,14 +180,17 @@ def _strip_defaults(tree):
     return tree
 
 
-def _make_process(name, tree, which, expose_from=None, expose_kwargs=None):
+def _make_process(name, tree, which, expose_from=None, expose_kwargs=None, sep=None):
     def define(cls, spec):
         super(klass, cls).define(spec)
         pm.build_namespace(spec, 'input' if which == 'inputs' else 'output', tree)
         if expose_from is not None:
             getattr(spec, 'expose_' + which)(expose_from, **expose_kwargs)
 
-    klass = type(name, (Process,), {'define': classmethod(define)})
+    body = {'define': classmethod(define)}
+    if sep:
+        body['_spec_class'] = pm.spec_class_for(sep)
+    klass = type(name, (Process,), body)
     return klass
 
 
@@ -208,20 +223,28 @@ def execute(case):
     except ValueError as exc:
         expected, exp_error = None, exc
 
-    kwargs = {'namespace': namespace, 'include': include, 'exclude': exclude, 'namespace_options': _real_options(options)}
+    sep = case.get('sep')
+
+    def real_path(path):
+        return path.replace('.', sep) if sep and path is not None else path
+
+    def real_rules(rules):
+        return None if rules is None else [real_path(r) for r in rules]
+
+    kwargs = {'namespace': real_path(namespace), 'include': real_rules(include), 'exclude': real_rules(exclude), 'namespace_options': _real_options(options)}
     got_error = None
     src_ns = dst_ns = None
     try:
         if via == 'absorb':
-            holder_s = _make_process('Src', source, 'inputs')
-            holder_d = _make_process('Dst', dest, 'inputs')
+            holder_s = _make_process('Src', source, 'inputs', sep=sep)
+            holder_d = _make_process('Dst', dest, 'inputs', sep=sep)
             src_ns = holder_s.spec().inputs
             dst_ns = holder_d.spec().inputs
-            target = dst_ns.create_port_namespace(namespace) if namespace else dst_ns
-            target.absorb(src_ns, exclude=exclude, include=include, namespace_options=_real_options(options))
+            target = dst_ns.create_port_namespace(real_path(namespace)) if namespace else dst_ns
+            target.absorb(src_ns, exclude=real_rules(exclude), include=real_rules(include), namespace_options=_real_options(options))
         else:
-            src_cls = _make_process('Src', source, via)
-            dst_cls = _make_process('Dst', dest, via, expose_from=src_cls, expose_kwargs=kwargs)
+            src_cls = _make_process('Src', source, via, sep=sep)
+            dst_cls = _make_process('Dst', dest, via, expose_from=src_cls, expose_kwargs=kwargs, sep=sep)
             src_ns = getattr(src_cls.spec(), via)
             dst_ns = getattr(dst_cls.spec(), via)
     except Exception as exc:  # noqa: BLE001
@@ -251,6 +274,8 @@ def execute(case):
     classes = ['mode:' + case['mode'], 'via:' + via, 'ns:' + str(namespace), 'error' if exp_error else 'ok']
     if options:
         classes.append('options')
+    if sep:
+        classes.append('custom-separator')
     if prefix_sibling:
         classes.append('nested-rule-with-prefix-sibling')
     return {
@@ -308,7 +333,13 @@ def _mutate(ns_real, io):
             port.populate_defaults = not port.populate_defaults
             port['added_later'] = real.InputPort('added_later') if io == 'input' else real.OutputPort('added_later')
         elif io == 'input':
-            port.default = 'mutated default'
+            if port.has_default() and isinstance(port.default, list):
+                port.default.append('mutated in place')
+            elif port.has_default() and isinstance(port.default, dict):
+                port.default.setdefault('k', []).append('mutated in place')
+                port.default['new'] = 1
+            else:
+                port.default = 'mutated default'
     ns_real.required = not ns_real.required
     ns_real.help = 'mutated top'
     ns_real['added_top'] = real.InputPort('added_top') if io == 'input' else real.OutputPort('added_top')
